@@ -40,10 +40,20 @@ package chain
 //@   noframe
 // Units (C12): bandwidth is the transaction's size; compute is the rules' base plus every action's and
 // the auth's compute units, summed exactly (an overflow is an error, never a wrapped number).  The
-// storage dimensions are accumulated per declared key with the same overflow-checked operator; their
-// exact sum over the key map is not stated (no sum operator over map keys).
+// storage dimensions are, each, the sum over the DECLARED KEY SET of (key units + declared chunks x
+// value units) with the same overflow-checked operator: setsum over the key set of the map returned
+// by StateKeys (finite-sum laws: empty -> 0, adding a non-member adds its weight).
+//@ spec func keyW(k string, keyUnits int, valueUnits int) int = keyUnits + ite(len(k) >= 2, be16(k, len(k) - 2), 0) * valueUnits
 //@ func (*Transaction).Units props C12
 //@   noframe
+//@   loop 2 invariant forall k string :: has(visited2, k) ==> has(stateKeys, k)
+//@   loop 2 invariant readsOp.err == nil ==> readsOp.v == setsum(keyW, visited2, Rules.GetStorageKeyReadUnits(r), Rules.GetStorageValueReadUnits(r))
+//@   loop 2 invariant allocatesOp.err == nil ==> allocatesOp.v == setsum(keyW, visited2, Rules.GetStorageKeyAllocateUnits(r), Rules.GetStorageValueAllocateUnits(r))
+//@   loop 2 invariant writesOp.err == nil ==> writesOp.v == setsum(keyW, visited2, Rules.GetStorageKeyWriteUnits(r), Rules.GetStorageValueWriteUnits(r))
+//@   at call Size assert visited2 == keys(stateKeys)
+//@   at call Size assert reads == setsum(keyW, keys(stateKeys), Rules.GetStorageKeyReadUnits(r), Rules.GetStorageValueReadUnits(r))
+//@   at call Size assert allocates == setsum(keyW, keys(stateKeys), Rules.GetStorageKeyAllocateUnits(r), Rules.GetStorageValueAllocateUnits(r))
+//@   at call Size assert writes == setsum(keyW, keys(stateKeys), Rules.GetStorageKeyWriteUnits(r), Rules.GetStorageValueWriteUnits(r))
 //@   reveal actCompute
 //@   loop 1 invariant 0 <= idx1 && idx1 <= len(t.Actions) && !isnil(computeOp)
 //@   loop 1 invariant computeOp.err == nil ==> computeOp.v == Rules.GetBaseComputeUnits(r) + actCompute(t.Actions, idx1, r)
